@@ -32,6 +32,7 @@
 #include <iostream>
 #include <sstream>
 #include <map>
+#include <cstdlib>
 #include <string>
 #include <utility>
 #include <vector>
@@ -352,11 +353,20 @@ json run_variant(const Input& in, const std::string& v) {
 
 int main() {
     std::string line;
+    // opt-in per-case watchdog of vh.hpp (VH_CASE_TIMEOUT seconds): a case the assembler does not finish is reported as "hang"
+    const char* wd = std::getenv("VH_CASE_TIMEOUT");
+    const long long wd_ms = wd ? std::atoll(wd) * 1000 : 0;
+    if (wd_ms > 0) vh::detail::start_watchdog();
     while (std::getline(std::cin, line)) {
         if (line.empty()) continue;
         const json c = json::parse(line);
         json r;
         r["id"] = c["id"];
+        if (wd_ms > 0) {
+            vh::detail::case_deadline_ms() = 0;
+            vh::detail::current_case_id() = c["id"].dump();
+            vh::detail::case_deadline_ms() = vh::detail::now_ms() + wd_ms * static_cast<long long>(c["variants"].size());
+        }
         json runs = json::array();
         bool ok = true;
         int step = 0;
@@ -372,6 +382,7 @@ int main() {
             r["step"] = step;
             r["note"] = std::string("exception in variant ") + (step < static_cast<int>(c["variants"].size()) ? c["variants"][step].get<std::string>() : "?") + ": " + typeid(e).name() + ": " + e.what();
         }
+        if (wd_ms > 0) vh::detail::case_deadline_ms() = 0;
         r["ok"] = ok;
         r["runs"] = runs;
         vh::emit(r);
